@@ -4,6 +4,7 @@ package mount
 import (
 	"io"
 	"path"
+	"strconv"
 	"strings"
 	"sync"
 
@@ -169,6 +170,16 @@ func (fs *FS) Rename(oldname, newname string) error {
 	return &hackpadfs.LinkError{Op: "rename", Old: oldname, New: newname, Err: cause}
 }
 
+// unusedSibling returns a name next to 'name' that does not exist in fs.
+func unusedSibling(fs hackpadfs.FS, name string) string {
+	for i := 0; ; i++ {
+		candidate := name + ".rename-" + strconv.Itoa(i)
+		if _, err := hackpadfs.Stat(fs, candidate); err != nil {
+			return candidate
+		}
+	}
+}
+
 func (fs *FS) rename(oldname, newname string) error {
 	if !hackpadfs.ValidPath(oldname) || !hackpadfs.ValidPath(newname) {
 		return &hackpadfs.LinkError{Op: "rename", Old: oldname, New: newname, Err: hackpadfs.ErrInvalid}
@@ -194,9 +205,17 @@ func (fs *FS) rename(oldname, newname string) error {
 		return &hackpadfs.LinkError{Op: "rename", Old: oldname, New: newname, Err: hackpadfs.ErrNotImplemented}
 	}
 
-	if newInfo, err := hackpadfs.Stat(newMount, newSubPath); err == nil && newInfo.IsDir() {
+	// When the destination exists already, copy next to it and rename over it: a copy that fails part-way must not destroy what was there.
+	copyPath := newSubPath
+	newInfo, err := hackpadfs.Stat(newMount, newSubPath)
+	_, canRename := newMount.(hackpadfs.RenameFS)
+	replacing := err == nil && canRename
+	if err == nil && newInfo.IsDir() {
 		// like os.Rename: a file cannot replace a directory
 		return &hackpadfs.LinkError{Op: "rename", Old: oldname, New: newname, Err: hackpadfs.ErrExist}
+	}
+	if replacing {
+		copyPath = unusedSibling(newMount, newSubPath)
 	}
 
 	oldFile, err := oldMount.Open(oldSubPath)
@@ -204,7 +223,7 @@ func (fs *FS) rename(oldname, newname string) error {
 		return err
 	}
 	defer func() { _ = oldFile.Close() }()
-	newFile, err := hackpadfs.OpenFile(newMount, newSubPath, hackpadfs.FlagWriteOnly|hackpadfs.FlagCreate|hackpadfs.FlagTruncate, oldInfo.Mode())
+	newFile, err := hackpadfs.OpenFile(newMount, copyPath, hackpadfs.FlagWriteOnly|hackpadfs.FlagCreate|hackpadfs.FlagTruncate, oldInfo.Mode())
 	if err != nil {
 		return err
 	}
@@ -215,8 +234,14 @@ func (fs *FS) rename(oldname, newname string) error {
 	defer func() { _ = newFile.Close() }()
 	_, err = io.Copy(newFileWriter, oldFile)
 	if err != nil {
-		_ = hackpadfs.Remove(newMount, newSubPath)
+		_ = hackpadfs.Remove(newMount, copyPath)
 		return err
+	}
+	if replacing {
+		if err := hackpadfs.Rename(newMount, copyPath, newSubPath); err != nil {
+			_ = hackpadfs.Remove(newMount, copyPath)
+			return err
+		}
 	}
 	if newInfo, err := hackpadfs.Stat(newMount, newSubPath); err == nil && newInfo.Mode() != oldInfo.Mode() {
 		// the destination existed before: a renamed file keeps its own mode, not the replaced file's
